@@ -212,6 +212,13 @@ Proof.
 Qed.
 Print Assumptions C36_check_then_insert_refuted.
 
+(** regression witness for C36-3: the XOR-accumulating comparator accepts two different MACs
+    (the same bit flipped in two bytes), whereas the comparison of the model is list equality *)
+Theorem C36_xor_accumulate_comparator_refuted :
+  exists a b : bytes, length a = 2%nat /\ length b = 2%nat /\ a <> b /\ xor_acc_eq a b = true /\ bytes_eqb a b = false.
+Proof. exists [0; 0], [1; 1]. repeat split; try reflexivity. discriminate. Qed.
+Print Assumptions C36_xor_accumulate_comparator_refuted.
+
 (** non-vacuity: toy primitives satisfying both laws, and a history that creates, re-reads,
     rejects, exports and imports *)
 Definition toy_kdf (pw salt : bytes) (_ : kparams) : option bytes := Some (repeat (fold_right N.add (hd 0 salt) pw) 32).
